@@ -60,4 +60,6 @@ if __name__ == "__main__":
     bad = [r for r in res if r[2] != "silent"]
     for name, prop, st, msg in sorted(bad):
         print(f"{name:14s} {prop} {st:9s} {msg}")
+    if os.environ.get("MATRIX_JSON"):
+        json.dump([list(r) for r in res], open(os.environ["MATRIX_JSON"], "w"), indent=0)
     print(f"{len(patches)} patches x {len(props)} checks: {sum(1 for r in res if r[2] == 'reported')} reported, {sum(1 for r in res if r[2] == 'undecided')} undecided")
